@@ -194,6 +194,13 @@ def make_heap(case):
     seq = list if case.get('list_items') else tuple          # inner collections as (mutable) lists or as tuples
     nest = lambda g: seq(seq(x) if isinstance(x, list) else x for x in g)       # a collection of collections (and scalars)
     cls = PE if case.get('value_equal') else PF if case.get('falsy_objects') else P
+    if case.get('registry_var') is not None:
+        # one variable is declared WITHOUT a domain: it ranges over the registered instances - exactly this case's objects, which are
+        # constructed under the caching configuration the case is then evaluated under
+        from entity_query_language.symbolic import Variable
+        for c_ in Variable._cache_.values():
+            c_.clear()
+        Variable._cache_.clear()
     objs = [cls(a=o[0], b=o[1], s=o[2], items=seq(o[3]), n=o[4], f=o[5], pair=tuple(o[6]), idx=i,
               groups=nest(o[9]) if len(o) > 9 else (), dmap=dict.fromkeys(o[10]) if len(o) > 10 else {})
             for i, o in enumerate(case['heap'])]
@@ -275,6 +282,9 @@ class Builder:
         self.memo = {} if case.get('share_terms') else None        # one expression OBJECT per distinct term (shared by the pool)
         self.used = set()
         for k, d in case['doms']:
+            if k == case.get('registry_var'):
+                self.vars[k] = let(type(objs[0]), name=f'v{k}')          # no domain: the registry
+                continue
             self.vars[k] = let(P, domain=self.domain_of(k, [objs[i] for i in d]), name=f'v{k}')
         for k, c in case.get('dom_filters', []):
             # the variable is used through a nested query over it: an(entity(x, c))
